@@ -251,6 +251,10 @@ struct W1 {
 
     void execute() {
         T = build_tissue(pl);
+#if DYNAMIC_MODEL_INDEX == 0
+        // damp_x = damping * dt / (lightest node mass): lets plans reach the heavily damped regime (> 1: the friction term reverses the momentum) whatever the meshes weigh
+        if (pl.p.count("damp_x")) { double mmin = 1e300; for (auto& c : T.cells) if (!c->is_static()) mmin = std::min(mmin, c->get_node_mass()); if (mmin < 1e300 && mmin > 0) T.params.damping_coefficient_ = pl.get("damp_x") * mmin / T.params.time_step_; }
+#endif
         for (auto& c : T.cells) { ever_ids.insert(c->get_id()); }
         int team = pl.geti("team", 1);
         S = std::make_unique<sim_solver>(T.params, T.cells, team, true, false);
@@ -351,6 +355,10 @@ Plan gen_w1(uint64_t seed, const std::string& tier, const std::string& focus) {
     int n = r.range(1, thorough ? 6 : 4); int layout = (int)r.below(3);
     if (focus == "C15") { layout = 0; n = r.range(2, 6); pl.p["diff"] = 1; pl.p["adhesion"] = 0; }
     if (focus == "C03") { layout = r.coin(0.7) ? 1 : 2; n = r.range(2, 4); }
+    if (focus == "C03" ? r.coin(0.5) : r.coin(0.1)) {   // every positive time step / damping / density
+        static const double dts[] = {5e-8, 1e-7, 2e-7}; pl.p["dt"] = dts[r.below(3)];
+        pl.p["damp_x"] = std::pow(10.0, r.uni(-2.5, 0.0)) * 1.5; if (r.coin(0.5)) pl.p["density"] = std::pow(10.0, r.uni(2.3, 3.7));
+    }
     pl.p["ncells"] = n; pl.p["layout"] = layout;
     place_cells(pl, r, n, layout, R, cutoff);
     for (int k = 0; k < n; k++) {
